@@ -139,6 +139,7 @@ func decodeStruct(p Paragraph, into reflect.Value) error {
 	/* Store the Paragraph type for later use when checking Anonymous
 	 * values. */
 	paragraphType := reflect.TypeOf(Paragraph{})
+	unmarshallableType := reflect.TypeOf((*Unmarshallable)(nil)).Elem()
 
 	/* Right, now, we're going to decode a Paragraph into the struct */
 
@@ -146,7 +147,11 @@ func decodeStruct(p Paragraph, into reflect.Value) error {
 		field := into.Field(i)
 		fieldType := into.Type().Field(i)
 
-		if field.Type().Kind() == reflect.Struct {
+		if field.Type().Kind() == reflect.Struct &&
+			!reflect.PtrTo(field.Type()).Implements(unmarshallableType) {
+			/* A struct that decodes itself from its own field (a version, a
+			 * dependency, an architecture) is not also filled in from the
+			 * paragraph's other fields. */
 			err := decodeStruct(p, field)
 			if err != nil {
 				return err
